@@ -266,6 +266,26 @@ TEMPLATES = [
 ]
 
 
+def nest(op, depth, leaf, const):
+    t = leaf
+    for _ in range(depth):
+        t = f'({op} {t} {const})'
+    return t
+
+
+# time per proposal must be bounded by a small function of the input size: terms
+# nested 24 deep on the first operand over a leaf whose sort ddSMT cannot infer
+# (an uninterpreted function application) and over one it can
+SCALING_TEMPLATES = [
+    '(declare-fun f (Int) Int)\n(declare-const x Int)\n(assert (> ' + nest('+', 24, '(f x)', '1') + ' 0))\n',
+    '(declare-const x Int)\n(assert (> ' + nest('*', 24, 'x', '2') + ' 0))\n',
+    '(declare-fun g (Int) (_ BitVec 8))\n(declare-const x Int)\n(assert (= ' + nest('bvadd', 24, '(g x)', '#x01') + ' #x00))\n',
+    '(declare-fun h (Int) Real)\n(declare-const x Int)\n(assert (< ' + nest('-', 24, '(h x)', '1.5') + ' 0.0))\n',
+    '(declare-fun p (Int) Bool)\n(declare-const x Int)\n(assert ' + nest('and', 24, '(p x)', 'true') + ')\n',
+    '(declare-const x Int)\n(assert (> ' + nest('ite true', 24, 'x', '0') + ' 0))\n',
+]
+
+
 @st.composite
 def inproc_case(draw):
     kind = draw(st.sampled_from(['typed', 'typed', 'shadow', 'damaged']))
@@ -355,6 +375,14 @@ def shard(ctx, acc):
             case = dict(kind='template', cmds=refreader.read(t, keep_comments=False))
             nt, stats = run_inproc(dd, case, acc, 'template', muts, max_states=60)
             acc.case(dict(script=t), nontrivial=nt, classes=['inproc-template'], sample=dict(script=t, **stats))
+    for i, t in enumerate(SCALING_TEMPLATES):
+        if (i + 5) % ctx.nshards == ctx.shard:
+            case = dict(kind='scaling-template', cmds=refreader.read(t, keep_comments=False))
+            exprs = [model.to_node(dd, c) for c in case['cmds']]
+            # one full enumeration of every proposal of every mutator (hang and no-op check)
+            edges = enumerate_edges(dd, exprs, muts, acc, case)
+            acc.case(dict(script=t), nontrivial=True, classes=['inproc-scaling-template'],
+                     sample=dict(script=t[:200], proposals=len(edges)))
     runner.hyp_run(ctx, inproc_case(), body, ctx.share(total))
     n = [0]
     total2 = 48 if ctx.quick else 800
@@ -376,5 +404,7 @@ def replay(case, acc, ctx):
     env.set_options(dd, ['in.smt2', 'out.smt2', '/bin/true'])
     if case.get('kind') == 'e2e':
         run_e2e(case, acc, os.path.join(ctx.workdir, 'replay'))
+    elif case.get('kind') == 'scaling-template':
+        enumerate_edges(dd, [model.to_node(dd, c) for c in case['cmds']], all_mutators(dd), acc, case)
     else:
         run_inproc(dd, case, acc, ctx.tier, all_mutators(dd))
